@@ -247,6 +247,7 @@ def load_known():
 class Check:
     def __init__(self, pid, tier, seed):
         self.pid, self.tier, self.seed = pid, tier, seed
+        self.requested_tier = tier      # (run.py widens self.tier to 'thorough' for the failing-input search when a proof obligation is broken)
         self.t0 = time.time()
         self.rng = np.random.default_rng(seed * 7919 + int(pid[1:]))
         self.evaluations = 0
@@ -300,7 +301,7 @@ class Check:
             h = hashlib.sha1(json.dumps(v, sort_keys=True, default=str).encode()).hexdigest()[:10]
             path = os.path.join(ROOT, "replays", "%s-%s.json" % (self.pid, h))
             with open(path, "w") as fh:
-                json.dump(dict(property=self.pid, seed=self.seed, tier=self.tier, **v), fh, indent=1, default=str)
+                json.dump(dict(property=self.pid, seed=self.seed, tier=self.requested_tier, **v), fh, indent=1, default=str)
             print("VIOLATION property=%s replay=%s%s" % (self.pid, path, " no-failing-input-found" if v["no_input"] else ""))
             rc = 1
         cov = dict(
@@ -327,7 +328,7 @@ class Check:
         if extra_cov:
             cov.update(extra_cov)
         ev = dict(
-            property_id=self.pid, tier=self.tier, seed=int(self.seed), level="proof",
+            property_id=self.pid, tier=self.requested_tier, seed=int(self.seed), level="proof",
             coverage=cov,
             assumptions=assumptions or [],
             wall_s=round(time.time() - self.t0, 2),
